@@ -349,6 +349,7 @@ func (w *Workspace) updateResolvedLocked(path string, journal *ast.Journal) {
 	}
 	if path == w.rootJournalPath {
 		w.resolved.Primary = journal
+		w.resolved.PrimaryPath = path
 		return
 	}
 	if journal == nil {
